@@ -267,6 +267,20 @@ def check(run):
     known = vlib.known_findings("C17")
     reported = set()
     nviol = 0
+    # one root cause shows at many (type, method, path) combinations (a field of QueryOptions is reached from Query, Execute, Body, Frame ...):
+    # report the shortest path per (kind, innermost field) and list the others in it
+    groups = {}
+    for f in findings:
+        if f["kind"] == "typed-nil-interface":
+            continue
+        groups.setdefault((f["kind"], f["field_path"].rsplit(".", 1)[-1]), []).append(f)
+    grouped = [f for f in findings if f["kind"] == "typed-nil-interface"]
+    for fs in groups.values():
+        fs.sort(key=lambda f: (len(f["field_path"]), f["field_path"], f["method"]))
+        rep = dict(fs[0])
+        rep["also_at"] = sorted({"%s.%s(): %s" % (f["type"], f["method"], f["field_path"]) for f in fs[1:]})[:40]
+        grouped.append(rep)
+    findings = grouped
     for f in findings:
         k = next((e for e in known if e.get("match") and all(f.get(a) == b for a, b in e["match"].items())), None)
         if k:
